@@ -507,6 +507,57 @@ func VerifC07_ScheduledWhileBeingStarted() {
 	rt.Reach("schedwhilestarting-end")
 }
 
+// Schedule with the zero time cancels the scheduled execution - a task that
+// (also) waits in a queue is still executed
+func VerifC07_ScheduleZeroKeepsQueuedTask() {
+	rt.SchedYieldOnly(true)
+	m := c07Reset()
+	u := rt.Unit()
+	runs := 0
+	bRunning := false
+	gate := make(chan struct{})
+	delay := time.Duration(3*rt.Choice("maxdelay", 2)) * u
+	t := m.NewTask("t", func(context.Context, *Task) error {
+		runs++
+		return nil
+	}).MaxDelay(delay)
+	b := m.NewTask("b", func(context.Context, *Task) error {
+		bRunning = true
+		<-gate
+		bRunning = false
+		return nil
+	}).MaxDelay(0)
+	go func() {
+		for {
+			taskTimeslot <- struct{}{}
+		}
+	}()
+	go taskQueueHandler()
+	go taskScheduleHandler()
+	b.Queue()
+	time.Sleep(u / 8)
+	rt.Assert(bRunning, "schedzero/slot-taken")
+	// the task is scheduled or not, and waits in a queue behind b
+	scheduled := rt.Bool("scheduled-before")
+	if scheduled {
+		t.Schedule(time.Now().Add(20 * u))
+	}
+	switch rt.Choice("submit", 3) {
+	case 0:
+		t.Queue()
+	case 1:
+		t.QueuePrioritized()
+	case 2:
+		t.StartASAP()
+	}
+	t.Schedule(time.Time{})
+	close(gate)
+	time.Sleep(8 * u)
+	rt.Assert(runs >= 1, "schedzero/queued-task-still-executed")
+	rt.Assert(runs <= 1, "schedzero/executed-once")
+	rt.Reach("schedzero-end")
+}
+
 // ---- O5: no self-overlap when re-queued while executing; the re-submission is not lost ----
 
 func VerifC07_NoSelfOverlap() {
